@@ -278,7 +278,7 @@ func (rp *Replayer) Replay(c *Case, keep bool) (final string, orig string) {
 		// the three observers are independent of each other: an independent reader (C03), the ecosystem's
 		// reference verifiers (C05) and relic's own verifier (C01/C08) each get to see the output
 		// --- payload preserved according to an independent reader
-		if haveReader && !ti.Detached && ti.OutExt == "" {
+		if haveReader && !ti.Detached && (ti.OutExt == "" || c.Type == "pgp-clearsign") {
 			outItems, _, oerr := PayloadItems(c.Type, cur)
 			if oerr != nil {
 				rp.fail(c, "output-malformed", x, "round %d: independent reader cannot read the output: %v", i+1, oerr)
